@@ -24,6 +24,46 @@ pub const WALL_LIMIT: Duration = Duration::from_secs(10);
 /// before it is called a hang (a loaded machine must not turn a slow scan into a finding)
 pub const RETRY_LIMIT: Duration = Duration::from_secs(90);
 
+/// CPU ticks (utime + stime over all threads) of a process, and whether one of its threads is
+/// running, runnable or in uninterruptible I/O
+pub fn proc_activity(pid: u32) -> Option<(u64, bool)> {
+  let mut ticks = 0u64;
+  let mut runnable = false;
+  for t in std::fs::read_dir(format!("/proc/{pid}/task")).ok()? {
+    let Ok(t) = t else { continue };
+    let Ok(stat) = std::fs::read_to_string(t.path().join("stat")) else { continue };
+    let Some((_, rest)) = stat.rsplit_once(')') else { continue };
+    let f: Vec<&str> = rest.split_whitespace().collect();
+    if f.len() < 13 {
+      continue;
+    }
+    if f[0] == "R" || f[0] == "D" {
+      runnable = true;
+    }
+    ticks += f[11].parse::<u64>().unwrap_or(0) + f[12].parse::<u64>().unwrap_or(0);
+  }
+  Some((ticks, runnable))
+}
+
+/// A wall-clock limit has expired: is the process still doing work? A dead-locked process (every
+/// thread asleep, no CPU time consumed over the window) is a hang; one that is being starved by
+/// other load on the machine is only slow and gets more time (up to the caller's hard cap).
+pub fn still_working(pid: u32) -> bool {
+  let a = proc_activity(pid);
+  let mut any = false;
+  for _ in 0..6 {
+    std::thread::sleep(Duration::from_millis(500));
+    if let Some((_, r)) = proc_activity(pid) {
+      any |= r;
+    }
+  }
+  let b = proc_activity(pid);
+  match (a, b) {
+    (Some((ta, ra)), Some((tb, rb))) => tb > ta || ra || rb || any,
+    _ => false,
+  }
+}
+
 #[derive(Clone, Debug, PartialEq)]
 pub enum Class {
   Ok,
@@ -172,6 +212,17 @@ fn wait_line(slot: &mut Option<ApiChild>, limit: Duration) -> Result<Value, Clas
   match c.rx.recv_timeout(limit) {
     Ok(ans) => Ok(serde_json::from_str(&ans).unwrap_or_else(|_| json!({"bad_answer": ans}))),
     Err(std::sync::mpsc::RecvTimeoutError::Timeout) => {
+      // the retry stage gives a child that is demonstrably still computing two more periods
+      if limit >= RETRY_LIMIT {
+        for _ in 0..2 {
+          if !still_working(c.child.id()) {
+            break;
+          }
+          if let Ok(ans) = c.rx.recv_timeout(limit) {
+            return Ok(serde_json::from_str(&ans).unwrap_or_else(|_| json!({"bad_answer": ans})));
+          }
+        }
+      }
       let mut dead = slot.take().unwrap();
       let _ = dead.child.kill();
       let _ = dead.child.wait();
@@ -259,12 +310,17 @@ fn run_cli_class_with(args: &[String], cwd: &Path, limit: Duration) -> Answer {
     .env("RUST_BACKTRACE", "0")
     .spawn()
     .expect("spawn agv-sg");
-  let deadline = Instant::now() + limit;
+  let mut deadline = Instant::now() + limit;
+  let hard_cap = Instant::now() + limit * 3;
   let st = loop {
     match child.try_wait() {
       Ok(Some(st)) => break Some(st),
       Ok(None) => {
         if Instant::now() > deadline {
+          if limit >= RETRY_LIMIT && Instant::now() < hard_cap && still_working(child.id()) {
+            deadline = Instant::now() + Duration::from_secs(10);
+            continue;
+          }
           let _ = child.kill();
           let _ = child.wait();
           break None;
